@@ -347,7 +347,60 @@ class BuiltinMixin(object):
     return results
 
   def sum_symbolic(self, st, it):
+    """sum(ord(x) for x in <str>) over a symbolic string: the byte sum, an uninterpreted fold with its defining facts."""
+    if isinstance(it, VGen_()):
+      node = it.node
+      g = node.generators[0] if len(node.generators) == 1 else None
+      if g is not None and not g.ifs and isinstance(g.target, ast.Name) and isinstance(node.elt, ast.Call) and \
+          isinstance(node.elt.func, ast.Name) and node.elt.func.id == 'ord' and len(node.elt.args) == 1 and \
+          isinstance(node.elt.args[0], ast.Name) and node.elt.args[0].id == g.target.id:
+        s = st.fork()
+        s.env = dict(it.env)
+        rs = self.eval(s, g.iter)
+        if len(rs) == 1 and isinstance(rs[0][1], (VStr, VBytes)):
+          return [(st, VInt(self.bytesum(st, rs[0][1].t)))]
     raise Unsupported('sum over symbolic iterable (use a spec fold)')
+
+  def bytesum(self, st, t):
+    f = z3.Function('bytesum', z3.StringSort(), z3.IntSort())
+    st.axiom(z3.And(f(t) >= 0, f(t) <= 255 * z3.Length(t), z3.Implies(z3.Length(t) == 0, f(t) == 0)))
+    self.ctx.use_trusted('bytesum fold (sum of code points; code points <= 255 assumed for wire data)')
+    return f(t)
+
+  def b_adb_header(self, st, args, kwargs):
+    """Spec function: the 24-byte ADB header of (command id, arg0, arg1, payload)."""
+    cmd, a0, a1, data = args
+    words = [cmd.t, a0.t, a1.t, z3.Length(data.t), self.bytesum(st, data.t) % 2**32, 2**32 - 1 - cmd.t]
+    return [(st, VBytes(z3.Concat(*[self.le32(w) for w in words])))]
+
+  def b_wire_command(self, st, args, kwargs):
+    """Spec function: little-endian packing of a 4-letter command name (constant names only)."""
+    a0 = args[0]
+    if isinstance(a0, VVal):
+      a0 = VStr(Val.s(a0.t))        # spec function on the string payload of the value
+    args = [a0]
+    name = z3.simplify(args[0].t)
+    if z3.is_string_value(name):
+      txt = name.as_string()
+      return [(st, VInt(sum(ord(c) << (8 * i) for i, c in enumerate(txt))))]
+    t = args[0].t
+    b = [z3.StrToCode(z3.SubString(t, z3.IntVal(j), z3.IntVal(1))) for j in range(4)]
+    return [(st, VInt(b[0] + 256 * b[1] + 65536 * b[2] + 16777216 * b[3]))]
+
+  def b_le32_at(self, st, args, kwargs):
+    """Spec function: k-th little-endian 32-bit word of a byte string."""
+    raw, k = args[0], z3.simplify(vv.as_intlike(args[1])).as_long()
+    if isinstance(raw, VVal):
+      raw = VStr(Val.s(raw.t))
+    b = [z3.StrToCode(z3.SubString(raw.t, z3.IntVal(4 * k + j), z3.IntVal(1))) for j in range(4)]
+    for x in b:
+      st.axiom(z3.Implies(z3.Length(raw.t) >= 4 * k + 4, z3.And(x >= 0, x <= 255)))
+    return [(st, VInt(b[0] + 256 * b[1] + 65536 * b[2] + 16777216 * b[3]))]
+
+  def b_bytesum(self, st, args, kwargs):
+    a0 = args[0]
+    t = Val.s(a0.t) if isinstance(a0, VVal) else a0.t
+    return [(st, VInt(self.bytesum(st, t)))]
 
   def b_list(self, st, args, kwargs):
     if not args:
@@ -1154,6 +1207,66 @@ class BuiltinMixin(object):
     text = z3.Function('file_read', z3.IntSort(), z3.StringSort())(args[0].t)
     ref = z3.Function('yaml_dict', z3.StringSort(), z3.IntSort())(text)
     return [(st, VRef('dict', ref, elem=None, keykind=Kind('str')))]
+
+  def le32(self, t):
+    return z3.Concat(z3.StrFromCode(t % 256), z3.StrFromCode((t / 256) % 256), z3.StrFromCode((t / 65536) % 256),
+                     z3.StrFromCode((t / 16777216) % 256))
+
+  def x_struct_calcsize(self, st, args, kwargs):
+    fmt = z3.simplify(args[0].t).as_string()
+    import struct as _s
+    return [(st, VInt(_s.calcsize(fmt)))]
+
+  def x_struct_pack(self, st, args, kwargs):
+    """Trusted: struct.pack('<nI', ...) is the concatenation of little-endian 32-bit words; struct.error outside 0..2^32-1."""
+    self.ctx.use_trusted('struct.pack')
+    fmt = z3.simplify(args[0].t).as_string()
+    import re as _re
+    m = _re.match(r'^<(\d*)I$', fmt)
+    if not m or int(m.group(1) or 1) != len(args) - 1:
+      raise Unsupported('struct.pack format %r' % fmt)
+    ints = [vv.as_intlike(a) for a in args[1:]]
+    if any(i is None for i in ints):
+      return [(st, self.raise_builtin(st, 'struct.error', 'required argument is not an integer'))]
+    ok = z3.And(*[z3.And(i >= 0, i < 2**32) for i in ints])
+    out = []
+    for s, good in self.branch(st, ok):
+      if good:
+        out.append((s, VBytes(z3.Concat(*[self.le32(i) for i in ints]))))
+      else:
+        out.append((s, self.raise_builtin(s, 'struct.error', 'argument out of range')))
+    return out
+
+  def x_struct_unpack(self, st, args, kwargs):
+    self.ctx.use_trusted('struct.unpack')
+    fmt = z3.simplify(args[0].t).as_string()
+    import re as _re
+    m = _re.match(r'^<(\d*)I$', fmt)
+    if not m:
+      raise Unsupported('struct.unpack format %r' % fmt)
+    n = int(m.group(1) or 1)
+    raw = args[1]
+    if isinstance(raw, VVal):
+      rs = self.resolve(st, raw)
+      if len(rs) != 1:
+        raise Unsupported('struct.unpack of a value of several possible types')
+      st, raw = rs[0]
+    if not isinstance(raw, (VStr, VBytes)):
+      raise Unsupported('struct.unpack of %r' % (raw,))
+    out = []
+    for s, good in self.branch(st, z3.Length(raw.t) == 4 * n):
+      if not good:
+        out.append((s, self.raise_builtin(s, 'struct.error', 'unpack requires a buffer of %d bytes' % (4 * n))))
+        continue
+      words = []
+      for k in range(n):
+        b = [z3.StrToCode(z3.SubString(raw.t, z3.IntVal(4 * k + j), z3.IntVal(1))) for j in range(4)]
+        w = b[0] + 256 * b[1] + 65536 * b[2] + 16777216 * b[3]
+        for x in b:
+          s.axiom(z3.And(x >= 0, x <= 255))      # wire data: code points <= 255
+        words.append(VInt(w))
+      out.append((s, VTuple(words)))
+    return out
 
   def x_os_path_basename(self, st, args, kwargs):
     return [(st, VStr(z3.Function('basename', z3.StringSort(), z3.StringSort())(args[0].t)))]
